@@ -70,6 +70,9 @@ pub enum RndOp {
     /// A program whose INPUT target is an array cell with RND in its subscript
     /// (directly or through a user function): one program-level call, one step.
     InputCell(u8),
+    /// RND in the condition of an IF whose THEN / ELSE clause is an INPUT: the
+    /// statement is suspended and resumed, the condition's call happened once.
+    CondInput(u8),
 }
 
 #[derive(Serialize, Deserialize, Debug, Clone)]
@@ -117,6 +120,7 @@ fn op_strategy() -> impl Strategy<Value = RndOp> {
         2 => arg().prop_map(RndOp::Nested),
         1 => (1u8..9).prop_map(RndOp::ViaDef),
         1 => (0u8..2).prop_map(RndOp::InputCell),
+        1 => (0u8..3).prop_map(RndOp::CondInput),
     ]
 }
 
@@ -195,6 +199,22 @@ fn lines_of(op: &RndOp) -> Vec<String> {
             "5".to_string(),
             "10".to_string(),
             "20".to_string(),
+        ],
+        RndOp::CondInput(k) => vec![
+            "5 DEF FN D(N) = INT(RND(1) * N)".to_string(),
+            match k % 3 {
+                0 => "10 IF RND(1) < 2 THEN INPUT Q".to_string(),
+                1 => "10 IF FN D(3) < 5 THEN INPUT Q".to_string(),
+                _ => "10 IF RND(1) > 2 THEN PRINT 0 ELSE INPUT Q".to_string(),
+            },
+            "20 PRINT RND(0)".to_string(),
+            "30 PRINT RND(1)".to_string(),
+            "RUN".to_string(),
+            format!("{}5", REPLY_MARK),
+            "5".to_string(),
+            "10".to_string(),
+            "20".to_string(),
+            "30".to_string(),
         ],
         RndOp::Loop(n) => vec![
             format!("10 FOR K = 1 TO {}", n),
@@ -304,6 +324,15 @@ fn expect_of(op: &RndOp, m: &mut Model) -> Vec<(Vec<Expect>, bool)> {
             let v = (vec![Expect::Exact(format!("{}\n", model_value(m.state)))], false);
             let none = (vec![], false);
             vec![none.clone(), none.clone(), none.clone(), none.clone(), v, none.clone(), none.clone(), none]
+        }
+        RndOp::CondInput(_) => {
+            m.state = model_next(m.state);
+            m.started = true;
+            let repeat = Expect::Exact(format!("{}\n", model_value(m.state)));
+            m.state = model_next(m.state);
+            let next = Expect::Exact(format!("{}\n", model_value(m.state)));
+            let none = (vec![], false);
+            vec![none.clone(), none.clone(), none.clone(), none.clone(), none.clone(), (vec![repeat, next], false), none.clone(), none.clone(), none.clone(), none]
         }
         RndOp::Loop(n) => {
             let mut out = vec![(vec![], false), (vec![], false), (vec![], false)];
@@ -564,7 +593,7 @@ pub fn property() -> Property {
     ];
     Property {
         id: "C18",
-        rule: "state-sweep/state-boundaries: generator states stepped through the rng_step hook and compared bit-for-bit with an independent u128 model (quick: every 128th of the 2^33 states plus all power-of-two neighbours and both ends; thorough: all 2^33 states; each 65536-state chunk is one counted case, coverage.states_checked gives the number of states). seed-step: seeds from boundaries + random u64, non-trivial iff seed >= 2^33. api-scripts: random scripts of PRINT RND(x) / RND inside expressions / RND(RND(x)) / RND of a user function that itself calls RND / RND in the subscript of an INPUT target / numbered programs and FOR loops on two core interpreters and the Web adapter, all seeded alike, compared with the model; non-trivial iff the script uses positive, zero and negative arguments and the seed is >= 2^33; distinct by script.",
+        rule: "state-sweep/state-boundaries: generator states stepped through the rng_step hook and compared bit-for-bit with an independent u128 model (quick: every 128th of the 2^33 states plus all power-of-two neighbours and both ends; thorough: all 2^33 states; each 65536-state chunk is one counted case, coverage.states_checked gives the number of states). seed-step: seeds from boundaries + random u64, non-trivial iff seed >= 2^33. api-scripts: random scripts of PRINT RND(x) / RND inside expressions / RND(RND(x)) / RND of a user function that itself calls RND / RND in the subscript of an INPUT target / RND in the condition of an IF whose clause is an INPUT / numbered programs and FOR loops on two core interpreters and the Web adapter, all seeded alike, compared with the model; non-trivial iff the script uses positive, zero and negative arguments and the seed is >= 2^33; distinct by script.",
         assumptions: vec![
             "RND(0) before any positive call after seeding has no defined 'previous value'; only 0 <= v < 1 is required there",
             "f64 division by 2^33 is exact for states < 2^33, so bit-equality is the right comparison",
